@@ -215,6 +215,20 @@ example :
     (run State.empty h₁).regs 1 = some ⟨.degraded, 3, 0⟩ ∧
     (run State.empty h₂).regs 1 = some ⟨.degraded, 3, 0⟩ := by decide
 
+/-- Anti-entropy: whatever two replicas did before (any merges, any local events, even states
+    that are not reachable), after each merges the other's published registers for the members
+    `ms` — in any batching order relative to other traffic — they agree on every member of `ms`. -/
+theorem anti_entropy_converges (s t : State) (ms : List Nat) (m : Nat) (hm : m ∈ ms) :
+    (merge s (snapshot t ms)).1.regs m = (merge t (snapshot s ms)).1.regs m := by
+  rw [merge_snapshot s t ms m hm, merge_snapshot t s ms m hm, join_comm']
+
+example :
+    let s := run State.empty [.updateLocal 0 .healthy 0, .merge [⟨1, ⟨.healthy, 1, 0⟩⟩], .suspect 1 0]
+    let t := run State.empty [.updateLocal 1 .healthy 0, .merge [⟨0, ⟨.healthy, 1, 0⟩⟩], .fail 0]
+    (merge s (snapshot t [0, 1])).1.regs 0 = some ⟨.failed, 3, 0⟩ ∧
+    (merge t (snapshot s [0, 1])).1.regs 0 = some ⟨.failed, 3, 0⟩ ∧
+    (merge s (snapshot t [0, 1])).1.regs 1 = (merge t (snapshot s [0, 1])).1.regs 1 := by decide
+
 /-! ## 6. nobody is failed at an incarnation the member never announced -/
 
 /-- the bound for every recorded health -/
